@@ -56,8 +56,8 @@ def classify(req, model):
 
 
 def oracle(req, impl, build):
-    """successful outputs of `read` must be consecutive, in-order pieces of the data (possibly with gaps
-    where a failed call lost bytes), little-endian; `mock` words in order"""
+    """successful outputs of `read` must be consecutive, in-order pieces of the data, little-endian, with no gap unless a
+    failed (panicking) call in between consumed bytes; `mock` words in order"""
     d = dict(t.split("=", 1) for t in req.split()[1:])
     opl = d["ops"].split(",") if d["ops"] else []
     toks = impl.split()
@@ -65,9 +65,14 @@ def oracle(req, impl, build):
         return None if impl == "panic" else "wrong number of results"
     if req.startswith("read"):
         data = bytes.fromhex(d["data"])
-        pos = 0
+        # the set of source offsets the reader can be at: one offset while everything succeeds; after a failed (panicking) call,
+        # which may have consumed any number of bytes, every later offset is possible
+        possible = {0}
         for op, t in zip(opl, toks):
-            if t in ("panic", "-"):
+            if t == "panic":
+                possible = set(range(min(possible), len(data) + 1))
+                continue
+            if t == "-":
                 continue
             if op == "u32":
                 b = int(t).to_bytes(4, "little")
@@ -75,10 +80,14 @@ def oracle(req, impl, build):
                 b = int(t).to_bytes(8, "little")
             else:
                 b = bytes.fromhex(t[2:])
-            i = data.find(b, pos) if b else pos
-            if i < 0:
-                return "op %s returned bytes that are not the next bytes of the source (fabricated or reordered data)" % op
-            pos = i + len(b)
+            nxt = {q + len(b) for q in possible if data[q:q + len(b)] == b}
+            if not nxt:
+                lo = min(possible)
+                if data.find(b, lo) < 0:
+                    return "op %s returned bytes that are not the next bytes of the source (fabricated or reordered data)" % op
+                return ("op %s returned source bytes %d.. although the reader stood at offset %s and no operation failed since the last output: "
+                        "bytes were skipped (every byte is to be used exactly once, in order)" % (op, data.find(b, lo), sorted(possible)[:3]))
+            possible = nxt
     else:
         words = [int(x) for x in d["words"].split(",")] if d["words"] else []
         i = 0
